@@ -74,6 +74,8 @@ class ThreadWorld(World):
     NAME = "thread"
     LEVEL = "fault_enumeration"
     SIM_TIME_UNIT = "scheduler steps (task completions)"
+    SYSTEMATIC_GATES_SEARCH = True
+    WARMUP_IN_CHILD = True
     RUNS = {"quick": 2400, "thorough": 40000}
     WALL_CAP = {"quick": 600, "thorough": 3000}
     RULE = (
@@ -136,13 +138,35 @@ class ThreadWorld(World):
 
     @classmethod
     def warmup(cls):
-        from sim import engine
+        """Compile every kernel once in the parent so that forked workers
+        inherit the machine code (children never JIT concurrently).  Verdicts
+        are ignored here: each routine is simply driven once per dtype."""
+        from sim.engine import Stats, Streams
 
-        # compile the kernels once in the parent; forked workers inherit them
-        for s in range(40):
-            r = engine.run_seed(cls, 990_000_000 + s)
-            if r.error:
-                raise HarnessError(r.error)
+        S = Streams("C16-warm", 0)
+        knobs = cls.draw_knobs(S)
+        knobs.update(modes=["serial", "merge"], mix="both")
+        w = cls(knobs, Stats())
+        try:
+            for fn in KERNELS + HIGHER:
+                for dtype in DTYPES:
+                    w.knobs["mix"] = "both"
+                    for _ in range(200):
+                        op = w.gen_op(S)
+                        if op.get("fn") == fn:
+                            break
+                    else:
+                        raise HarnessError(f"warmup could not draw {fn}")
+                    op["dtype"] = dtype
+                    if "n" in op:
+                        op["n"] = max(op["n"], 5)
+                    try:
+                        w.apply(op)
+                    except (Violation, Skip):
+                        pass
+            check_partition_quiet(w.qu)
+        finally:
+            w.close()
 
     @staticmethod
     def nontrivial(trace, stats):
@@ -774,6 +798,7 @@ class ThreadWorld(World):
             })
         return {
             "coverage": {
+                "systematic_evaluations": n,
                 "partition_grid": {
                     "size_max": smax, "abs_block_max": bmax, "threads_max": tmax,
                     "triples_enumerated": n, "exhaustive": True,
@@ -782,6 +807,14 @@ class ThreadWorld(World):
             },
             "violations": viols,
         }
+
+
+def check_partition_quiet(qu):
+    for a in ((5, 2, 3), (5, -2, 3)):
+        try:
+            check_partition(qu, *a)
+        except Violation:
+            pass
 
 
 def check_partition(qu, size, tbs, nt):
